@@ -25,7 +25,7 @@ PROP = dict(
          'bulk class (crypto/math, ecc_math.c) first occurrence of every second context + ~40 strided k per scenario; sticky every 3rd of those; 8 random patterns per scenario; strides offset by the seed.',
     assumptions=['single-threaded use', 'only the allocator fails (no I/O errors, no signals)', 'USE_MATRIX_MEMORY_MANAGEMENT off: psMalloc == malloc'],
     targets=[dict(name='c19_alloc_quick', src=SRC, wraps=WRAPS, env={'VERIF_DIR': '/verif'}, enumerate=True, args=['--c19-quick'],
-                  quick=dict(cases=0, secs=120, grace=120)),
+                  quick=dict(cases=0, secs=100, grace=120)),
              dict(name='c19_alloc', src=SRC, wraps=WRAPS, env={'VERIF_DIR': '/verif'}, enumerate=True,
                   thorough=dict(cases=0, secs=1100, grace=240))],
 )
